@@ -53,7 +53,9 @@ _SHAPES = ((0, "before"), (2, "after"), (10, "covers-start"), (11, "covers-all")
 OBLIGATIONS = [
     # ---- range reads -----------------------------------------------------------------------------------------------------
     chx("read_immutable", "C31_h", "h_read_immutable", timeout=T, bounds=_b(ln_min=1, ln_max=(2 * K, 4 * K)),
-        cases=[{"other": 0, "_label": "one-share"}, {"other": 1, "_label": "two-shares"}, {"ln_min": 0, "ln_max": 1, "_label": "length-0-or-1"}],
+        cases={"quick": [{"other": 0, "_label": "one-share"}, {"other": 1, "_label": "two-shares"}, {"ln_min": 0, "ln_max": 1, "_label": "length-0-or-1"}],
+               "thorough": [{"other": 0, "nl": 1, "_label": "one-share"}, {"other": 1, "nl": 2, "_label": "two-shares,2-leases"},
+                            {"other": 0, "nl": 0, "_label": "one-share,no-lease"}, {"ln_min": 0, "ln_max": 1, "_label": "length-0-or-1"}]},
         desc="get_buckets + read(offset, length) of an immutable share (symbolic data length <= 2^40, 1 lease, optionally a second share; offset unbounded, "
              "1 <= length <= 2*65536 so that the server's 64 KiB producer loop runs 1-3 times) through _HTTPStorageServer.get_buckets / _HTTPBucketReader.read / "
              "http_client.read_share_chunk / HTTPServer.list_shares + read_share_chunk / read_range / _ReadRangeProducer versus _StorageServer.get_buckets / "
@@ -79,6 +81,11 @@ OBLIGATIONS = [
              "valid/absent/garbage/unsatisfied, symbolic announced range and body length, body in two pieces): the request is a GET of the share URL whose Range denotes "
              "exactly [offset, offset+length); 204 -> b''; data is returned only from a 206 with application/octet-stream whose Content-Range parses, announces at most "
              "`length` bytes and matches the body length exactly; every other answer raises (ClientException carrying the status for a wrong status)"),
+    chx("read_strings", "C31_h", "h_read_strings", timeout=T, bounds=_b(d_max=(5, 9), l_max=(3, 5)),
+        desc="the same read comparison (immutable read / mutable slot_readv) with the REAL werkzeug Range / ContentRange classes and parsers and real header text, "
+             "for every data length <= 5, offset <= 6, length <= 3 (path per input, run concretely): Range text is 'bytes=first-last', Content-Range text "
+             "'bytes first-last/*' of the bytes sent, same bytes as the direct read",
+        outside="decides nothing symbolically: it ties the header stand-ins of the symbolic obligations to the real text path"),
     # ---- chunked uploads -------------------------------------------------------------------------------------------------
     chx("upload", "C31_h", "h_upload", timeout=T, bounds=_b(ln_min=1, ln_max=(K, 3 * K)),
         cases={"quick": [{"n": 1, "has1": 0, "_label": "1-chunk,<=64KiB"}, {"n": 1, "has1": 0, "l1_min": K + 1, "ln_max": 2 * K, "_label": "1-chunk,>64KiB"},
@@ -97,6 +104,16 @@ OBLIGATIONS = [
              "[0, size) (independent interval-union model), the share is finalised exactly then and close() fires exactly then; `required` is exactly the set of unwritten "
              "bytes (probe); same visible shares and byte-identical file system afterwards",
         outside="a refused chunk longer than 65536 bytes (class rejected-chunk-longer-than-64KiB, see report) and zero-length chunks (class zero-length-write)"),
+    chx("server_write_chunk", "C31_h", "h_server_write_chunk", timeout=T, bounds=_b(body_max=(4 * K, 5 * K)),
+        desc="HTTPServer.write_share_data + UploadsInProgress.get_write_bucket + StorageClientImmutables.write_share_chunk alone on a RECORDING bucket (unbounded "
+             "offset, body <= 4*65536, the bucket reports `finished` from a symbolic piece on, refuses a symbolic piece with ConflictingWriteError, and reports a "
+             "symbolic required range): the body is written in order in contiguous pieces of at most 65536 bytes starting at the announced offset; 409 and no close at "
+             "the first refused piece; otherwise the client sees finished == the bucket's answer for the last piece, the bucket is closed exactly then, and `required` "
+             "is the bucket's required_ranges(); a PATCH whose Content-Range is missing or not in bytes -> 416, nothing written"),
+    chx("upload_strings", "C31_h", "h_upload_strings", timeout=T, bounds=_b(d_max=(3, 4), l_max=(2, 3)),
+        desc="two-chunk uploads with the REAL werkzeug ContentRange class / parser and real Content-Range text for every size <= 3, offsets <= 3, lengths <= 2, same or "
+             "other source (path per input, run concretely): accepted/refused alike, finished flags, completion, visibility and file system as on the direct path",
+        outside="decides nothing symbolically: ties the Content-Range stand-in to the real text path"),
     # ---- read-test-write ---------------------------------------------------------------------------------------------------
     chx("rtw_marshalling", "C31_h", "h_rtw_marshalling", timeout=T, bounds=_b(),
         desc="slot_testv_and_readv_and_writev through both paths onto a RECORDING storage server: 8 request shapes (0-2 shares incl. share numbers 0/1/3/7/200/255, "
